@@ -118,8 +118,8 @@ def ping_loop_model(ctx, repo, rule):
     from ..absint import BoundMethod, Native, Obj, PyRaise, Undecided
     from ..facts import ConnectionModel
     pl = repo.method("GeckoAsyncSpa", "_ping_loop")
-    cfgmod = repo.mod("config.py")
-    idle = cfgmod.classes.get("_GeckoIdleConfig")
+    idle = repo.cls("_GeckoIdleConfig", False)
+    cfgmod = idle.mod if idle is not None else repo.mod("config.py")
     TIMEOUT = repo.try_fold(idle.consts.get("PING_DEVICE_NOT_RESPONDING_TIMEOUT_IN_SECONDS"), cfgmod) if idle is not None else None
     if not isinstance(TIMEOUT, (int, float)):
         raise AnalysisError("PING_DEVICE_NOT_RESPONDING_TIMEOUT_IN_SECONDS of the idle table does not fold to a number")
